@@ -526,10 +526,11 @@ def load_bounded(run):
         'an int; element-wise; constructor parameters recursively)'))
 
 
-def nodecross_bounded(run):
+def nodecross_bounded(run, only=()):
     try:
         rc, out, err = run_native([os.path.join(
-            VERIF, 'checks', 'nodecross_native.py')], run.repo, timeout=900)
+            VERIF, 'checks', 'nodecross_native.py')] + list(only), run.repo,
+            timeout=900)
         r = json.loads(out)
     except Exception as ex:      # noqa
         run.broken.append('node contract cross-check failed to run: %r' % (
@@ -540,7 +541,8 @@ def nodecross_bounded(run):
         'UnknownNode methods (%s) evaluated natively around the real methods '
         'on every small node of pyvc.native.small_nodes (one attribute '
         'holding a scalar / a sequence / a mapping of up to 2 small items '
-        'over the keys id, val, x; empty mapping; duplicated key) x all '
+        'over the keys id, val, x - two-item containers over 5 kinds of items '
+        'for methods with 3 or more arguments; empty mapping; duplicated key) x all '
         'arguments over {items,id,val,x} / {None,val} / {True,False}; not '
         'covered (type or arbitrary-value arguments): %s' % (
             len(r.get('covered', [])), ', '.join(r.get('covered', [])),
